@@ -99,26 +99,31 @@ func (c *ctx) fileWrites() {
 			// G6
 			c.checkValidated(fc, fd, call, conds, key)
 		case "os.CreateTemp":
+			// a file in the system temp dir is not one of the user's files: allowed wherever it is created
 			okArg := len(call.Args) == 2
 			if okArg {
 				s, isC := constStr(fc, call.Args[0])
 				okArg = isC && s == ""
 			}
-			onFail := false
-			for _, cd := range conds {
-				if !cd.Pos && c.errFrom(fc, cd, "go/parser.ParseFile") {
-					onFail = true
-				}
-			}
-			c.s.Check(okArg && onFail, "G4", key+"#debug dump", c.pos(call), "listed exception: dump into the system temp dir on the parse-failure path (cff then fails)", "temp file created outside the parse-failure debug path or outside the system temp dir")
+			c.s.Check(okArg, "G4", key+"#debug dump", c.pos(call), "listed exception: dump into the system temp dir", "temp file created outside the system temp dir")
 		case "(*bytes.Buffer).WriteTo":
-			onFail := false
-			for _, cd := range conds {
-				if !cd.Pos && c.errFrom(fc, cd, "go/parser.ParseFile") {
-					onFail = true
-				}
+			// the destination handle must be the one os.CreateTemp returned in this function
+			isTemp := false
+			if dst := astx.IdentObj(info, call.Args[0]); dst != nil && fd != nil {
+				ast.Inspect(fd.Body, func(n ast.Node) bool {
+					as, ok := n.(*ast.AssignStmt)
+					if !ok || len(as.Rhs) != 1 || len(as.Lhs) == 0 {
+						return true
+					}
+					if c2, ok := astx.Unparen(as.Rhs[0]).(*ast.CallExpr); ok {
+						if f2 := astx.Callee(info, c2); f2 != nil && f2.FullName() == "os.CreateTemp" && astx.IdentObj(info, as.Lhs[0]) == dst {
+							isTemp = true
+						}
+					}
+					return true
+				})
 			}
-			c.s.Check(onFail, "G4", key+"#debug dump", c.pos(call), "writes the debug temp file on the parse-failure path", "a file handle is written outside the parse-failure debug path")
+			c.s.Check(isTemp, "G4", key+"#debug dump", c.pos(call), "writes the debug temp file", "a file handle other than the debug temp file is written")
 		default:
 			c.s.Bad("G4", key, c.pos(call), "file-system mutation outside the closed list (os.WriteFile(outputPath), debug temp file): cff could modify files other than its documented outputs")
 		}
